@@ -22,6 +22,8 @@ Reg2 == {<<"$3">>, <<"$3", "SEP", "$4">>}
 Hostile2 == {<<"MO", "$3">>, <<"$3", "MC", "NL", "$4">>, <<"NL", "$3">>, <<"$3", "BAD">>}
 ShapesV == Reg1 \cup Hostile1
 Shapes2V == Reg2 \cup Hostile2
+\* long strings: an unsafe word, then more text than any size limit of a reporting path
+ShapesLong == {<<"$1", "SP", "L_pad", "SP", "$2">>, <<"$1">>}
 \* regular strings only (congruence, retention)
 ShapesR == Reg1
 Shapes2R == Reg2
